@@ -851,37 +851,37 @@ func ruleWrapWriter(p *Prog, r *Report) {
 			r.OK(rule, pr[0], "arguments forwarded to "+pr[1], p.Pos(ec.call.Pos()), "calls "+viaCore+", which "+pr[1]+" only wraps, with argument terms identical to the ones "+pr[1]+" builds from the same parameters")
 		}
 		if viaCore == "" {
-		var fwd []int
-		for i := range fn.Params {
-			if i != wi {
-				fwd = append(fwd, i)
-			}
-		}
-		eargs := ec.call.Common().Args
-		if len(eargs) != len(fwd) {
-			okArgs = false
-		} else {
-			for i, a := range eargs {
-				ts := w.resolve(a, ec.fr, 0)
-				if len(ts) == 0 {
-					okArgs = false
+			var fwd []int
+			for i := range fn.Params {
+				if i != wi {
+					fwd = append(fwd, i)
 				}
-				for _, t := range ts {
-					if !(t.kind == "param" && t.idx == fwd[i]) {
-						// in the Writer form itself a derived value (rootTag...) of the parameter counts as before
-						if ec.fr.parent == nil && derivesFrom(a, fn.Params[fwd[i]]) {
-							continue
-						}
+			}
+			eargs := ec.call.Common().Args
+			if len(eargs) != len(fwd) {
+				okArgs = false
+			} else {
+				for i, a := range eargs {
+					ts := w.resolve(a, ec.fr, 0)
+					if len(ts) == 0 {
 						okArgs = false
+					}
+					for _, t := range ts {
+						if !(t.kind == "param" && t.idx == fwd[i]) {
+							// in the Writer form itself a derived value (rootTag...) of the parameter counts as before
+							if ec.fr.parent == nil && derivesFrom(a, fn.Params[fwd[i]]) {
+								continue
+							}
+							okArgs = false
+						}
 					}
 				}
 			}
-		}
-		if okArgs {
-			r.OK(rule, pr[0], "arguments forwarded to "+pr[1], p.Pos(ec.call.Pos()), "receiver and all non-writer parameters in order")
-		} else {
-			r.Bad(rule, pr[0], "arguments forwarded to "+pr[1], p.Pos(ec.call.Pos()), "the paired encoder is not called on the same receiver with the same arguments in order")
-		}
+			if okArgs {
+				r.OK(rule, pr[0], "arguments forwarded to "+pr[1], p.Pos(ec.call.Pos()), "receiver and all non-writer parameters in order")
+			} else {
+				r.Bad(rule, pr[0], "arguments forwarded to "+pr[1], p.Pos(ec.call.Pos()), "the paired encoder is not called on the same receiver with the same arguments in order")
+			}
 		}
 		if len(w.writes) != 1 || w.other != 0 {
 			r.Bad(rule, pr[0], "exactly one Write", pos, fmt.Sprintf("found %d Write calls and %d other uses of the writer", len(w.writes), w.other))
